@@ -395,6 +395,57 @@ func (h *c15Hist) load(u int) {
 	h.record(fmt.Sprintf("(Load %d%%N)", u), out)
 	h.e.res.bump("op:load-" + c15ModeNames[h.e.mode])
 	h.e.touched()
+	if h.e.mode != c15Up {
+		want, inCache := h.e.snapC().profiles[c15Users[u]]
+		same := err == nil && ok == inCache && (!ok || h.profIdx(want) == h.poolIdx[c15Hash(c15Canon(p))])
+		c15ReadOracle(h.e, "LoadUserProfile", err, fromCache, same, map[string]interface{}{"history": h.human, "user": c15Users[u]})
+	}
+}
+
+// During an outage of whatever kind a read is answered from the cache, and says so.
+func c15ReadOracle(e *c15Env, fn string, err error, fromCache, sameAsCache bool, kase map[string]interface{}) {
+	kase["outage"] = c15ModeKinds[e.mode]
+	e.res.eval("outage-read|"+fn+"|"+c15ModeKinds[e.mode]+"|"+fmt.Sprint(err == nil, fromCache, sameAsCache), true)
+	shape := ""
+	switch {
+	case err != nil:
+		shape = "failed"
+	case !fromCache:
+		shape = "not-flagged-from-cache"
+	case !sameAsCache:
+		shape = "not-the-cache-content"
+	default:
+		return
+	}
+	e.res.hit(verifHit{Key: "C15:outage-read:" + fn + ":" + shape + ":" + c15ModeKinds[e.mode],
+		Oracle: "while the primary is unreachable, in whichever way, reads continue from the cache",
+		What:   fmt.Sprintf("%s while the primary is out (%s; read deadline %v): err=%v fromCache=%v content-equals-cache=%v", fn, c15ModeKinds[e.mode], e.st.remoteDBQueryTimeout, err, fromCache, sameAsCache),
+		Case:   kase, Observed: map[string]interface{}{"error": fmt.Sprint(err), "fromCache": fromCache}})
+}
+
+func (h *c15Hist) users() {
+	names, fromCache, err := h.e.st.GetUsers()
+	out := "OErr"
+	if err == nil {
+		var ns []string
+		for _, n := range names {
+			ns = append(ns, fmt.Sprintf("%d%%N", c15UserNo(n)))
+		}
+		out = fmt.Sprintf("(OUsers %s [%s])", coqBool(fromCache), strings.Join(ns, "; "))
+	}
+	h.record("Users", out)
+	h.e.res.bump("op:users-" + c15ModeNames[h.e.mode])
+	h.e.touched()
+	if h.e.mode != c15Up {
+		want := h.e.snapC().profiles
+		same := err == nil && len(names) == len(want)
+		for _, n := range names {
+			if _, ok := want[n]; !ok {
+				same = false
+			}
+		}
+		c15ReadOracle(h.e, "GetUsers", err, fromCache, same, map[string]interface{}{"history": h.human})
+	}
 }
 
 func (h *c15Hist) getS(u, ty int) {
@@ -411,6 +462,19 @@ func (h *c15Hist) getS(u, ty int) {
 	h.record(fmt.Sprintf("(GetS %d%%N %d%%N)", u, ty), out)
 	h.e.res.bump("op:getsigned-" + c15ModeNames[h.e.mode])
 	h.e.touched()
+	if h.e.mode != c15Up {
+		// GetSigned has no fromCache result; a found record must be the cache's unexpired row
+		row, inCache := h.e.snapC().signed[c15Users[u]+"|"+strconv.Itoa(ty)]
+		nowU := time.Now().Unix()
+		near := inCache && row.exp-nowU < 2 && row.exp-nowU > -2 // the expiry comparison may fall either way
+		live := inCache && row.exp > nowU
+		same := err == nil && (near || ok == live)
+		if same && ok && !near {
+			d, known := h.jwsData[row.jws]
+			same = known && data == "payload-"+strconv.Itoa(d)
+		}
+		c15ReadOracle(h.e, "GetSigned", err, true, same, map[string]interface{}{"history": h.human, "user": c15Users[u], "type": ty})
+	}
 }
 
 func (h *c15Hist) upsert(u, ty, d int, exp int64) {
@@ -481,7 +545,7 @@ func (h *c15Hist) syncOnce(k int) (fired bool) {
 	if fired {
 		h.faults++
 		e.res.bump("fault@" + failing)
-	} else if e.mode != c15Dead {
+	} else if c15Writable(e.mode) {
 		e.res.bump("sync-statements:" + strconv.Itoa(count))
 	}
 	e.res.eval(fmt.Sprintf("sync|%d|%d|%v|%s", len(prim.profiles), len(prim.signed), err == nil, failing), len(prim.profiles)+len(prim.signed)+len(before.profiles)+len(before.signed) > 0)
@@ -489,7 +553,7 @@ func (h *c15Hist) syncOnce(k int) (fired bool) {
 }
 
 func (h *c15Hist) sync() {
-	if h.e.mode == c15Dead {
+	if !c15Writable(h.e.mode) {
 		h.syncOnce(-1)
 		return
 	}
@@ -518,7 +582,7 @@ func (h *c15Hist) cleanup() {
 	h.snapshot()
 	e.res.bump("op:cleanup")
 	for name, s := range map[string]c15Snap{"primary": e.snapP(), "cache": e.snapC()} {
-		if name == "primary" && e.closed {
+		if name == "primary" && !c15Writable(e.mode) {
 			continue
 		}
 		for k, r := range s.signed {
@@ -558,13 +622,26 @@ func (h *c15Hist) randomOp() {
 		h.sync()
 	case w < 80:
 		h.cleanup()
-	case w < 86:
+	case w < 84:
 		h.load(u)
-	case w < 92:
+	case w < 89:
 		h.getS(u, ty)
+	case w < 92:
+		h.users()
 	default:
-		h.setMode(rng.Intn(3))
+		h.setMode(c15RandomMode(rng, true))
 	}
+}
+
+// Up, hang and closed-pool as often as before; the fail-fast kinds share the rest
+func c15RandomMode(rng *mrand.Rand, withUp bool) int {
+	if withUp && rng.Intn(4) == 0 {
+		return c15Up
+	}
+	if rng.Intn(2) == 0 {
+		return c15Slow + rng.Intn(2)
+	}
+	return c15PrepW + rng.Intn(c15NModes-c15PrepW)
 }
 
 func (h *c15Hist) nowish() int64 { return time.Now().Unix() }
@@ -694,7 +771,9 @@ func (f *c15Fixture) probes() []c15Probe {
 		{name: "POST " + addUserPath, kind: "HMutate", present: false, target: "dave",
 			req: func() *http.Request { return f.request("POST", addUserPath, "admin", url.Values{"username": {"dave"}}) }},
 		{name: "POST " + deleteUserPath, kind: "HDelete", present: true, target: "bob",
-			req: func() *http.Request { return f.request("POST", deleteUserPath, "admin", url.Values{"username": {"bob"}}) }},
+			req: func() *http.Request {
+				return f.request("POST", deleteUserPath, "admin", url.Values{"username": {"bob"}})
+			}},
 		{name: "POST " + generateBoostrapOTPPath, kind: "HMutate", present: true, target: "carol",
 			req: func() *http.Request {
 				return f.request("POST", generateBoostrapOTPPath, "admin", url.Values{"username": {"carol"}, "duration": {"1h"}})
@@ -788,18 +867,19 @@ func c15Classify(before, after c15Snap, user string) int {
 	return 12
 }
 
-func c15OutageOracle(e *c15Env, route, mode string, status int, bp, ap, bc, ac c15Snap, kase interface{}) (changed bool) {
+func c15OutageOracle(e *c15Env, route string, m int, status int, bp, ap, bc, ac c15Snap, kase interface{}) (changed bool) {
+	mode := c15ModeNames[m]
 	obs := map[string]interface{}{"status": status, "mode": mode}
 	if !bc.equal(ac) {
 		changed = true
 		e.res.hit(verifHit{Key: "C15:outage:cache-written:" + route, Oracle: "requests never write the offline cache",
 			What: fmt.Sprintf("%s in mode %s changed the cache database (status %d)", route, mode, status), Case: kase, Observed: obs})
 	}
-	if mode == "Dead" {
+	if !c15Writable(m) {
 		if !bp.equal(ap) {
 			changed = true
 			e.res.hit(verifHit{Key: "C15:outage-dead:primary-changed:" + route, Oracle: "with the primary unreachable nothing is changed",
-				What: fmt.Sprintf("%s with the primary closed changed the primary database (status %d)", route, status), Case: kase, Observed: obs})
+				What: fmt.Sprintf("%s with the primary unreachable (%s) changed the primary database (status %d)", route, c15ModeKinds[m], status), Case: kase, Observed: obs})
 		}
 		return
 	}
@@ -894,7 +974,7 @@ func TestVerif_C15(t *testing.T) {
 				h.randomOp()
 			}
 			// finish with a completed copy and reads during an outage
-			if h.e.mode == c15Dead {
+			if !c15Writable(h.e.mode) {
 				h.setMode(c15Up)
 			}
 			if h.enumSync {
@@ -902,11 +982,12 @@ func TestVerif_C15(t *testing.T) {
 			} else {
 				h.syncOnce(-1)
 			}
-			h.setMode(1 + rng.Intn(2))
+			h.setMode(c15RandomMode(rng, false))
 			for u := 1; u <= 3; u++ {
 				h.load(u)
 			}
 			h.getS(1+rng.Intn(3), 1)
+			h.users()
 		})
 	}
 	res.Extra["fault_points"] = totalFaults
@@ -957,7 +1038,10 @@ func TestVerif_C15(t *testing.T) {
 	fx := &c15Fixture{e: e, mat: mat, dev: newVerifU2FDevice(), secret: secretKey.Secret(), pending: pendingKey.Secret(), u2fIdx: 1790001000, totpIdx: 1790002000}
 	var hcases, hidx []string
 	for _, pr := range fx.probes() {
-		for m := c15Up; m <= c15Dead; m++ {
+		for m := c15Up; m < c15NModes; m++ {
+			if m >= c15PrepX && !verifThorough() && pr.kind != "HAuthSave" && pr.kind != "HDelete" {
+				continue // quick tier: the fail-fast outages with failing writes only for the second-factor checks and the delete
+			}
 			fx.reset()
 			if pr.pre != nil {
 				pr.pre()
@@ -979,7 +1063,14 @@ func TestVerif_C15(t *testing.T) {
 			served := rr.Code < 400
 			kase := map[string]interface{}{"request": pr.name, "mode": c15ModeNames[m], "target": pr.target}
 			if m != c15Up {
-				c15OutageOracle(e, pr.name, c15ModeNames[m], rr.Code, bp, ap, bc, ac, kase)
+				c15OutageOracle(e, pr.name, m, rr.Code, bp, ap, bc, ac, kase)
+				// logins and second-factor checks (and plain readers) continue from the cache
+				if (pr.kind == "HAuthSave" || pr.kind == "HRead") && !served {
+					e.res.hit(verifHit{Key: "C15:outage-2fa-refused:" + pr.name + ":" + c15ModeKinds[m],
+						Oracle: "while the primary is unreachable, in whichever way, logins and second-factor checks continue from the cache",
+						What:   fmt.Sprintf("%s with valid credentials answered %d while the primary is out (%s; read deadline %v); the cache holds the user's profile", pr.name, rr.Code, c15ModeKinds[m], e.st.remoteDBQueryTimeout),
+						Case:   kase, Observed: map[string]interface{}{"status": rr.Code, "body": rr.Body.String()[:minInt(rr.Body.Len(), 200)]}})
+				}
 			}
 			hcases = append(hcases, fmt.Sprintf("(%s, %s, %s, %d%%N, %s, %s)", pr.kind, c15ModeNames[m], coqBool(pr.present), cls, coqBool(!bc.equal(ac)), coqBool(served)))
 			hidx = append(hidx, fmt.Sprintf("%s mode=%s status=%d primary-class=%d cache-changed=%v", pr.name, c15ModeNames[m], rr.Code, cls, !bc.equal(ac)))
@@ -1010,7 +1101,7 @@ func TestVerif_C15(t *testing.T) {
 					e.settle()
 					ap, ac := e.snapP(), e.snapC()
 					name := method + " " + rt.Path
-					changed := c15OutageOracle(e, name, c15ModeNames[m], rr.Code, bp, ap, bc, ac,
+					changed := c15OutageOracle(e, name, m, rr.Code, bp, ap, bc, ac,
 						map[string]interface{}{"request": name, "mode": c15ModeNames[m], "user": user, "handler": rt.Handler})
 					res.eval(fmt.Sprintf("route|%s|%d|%s|%d", name, m, user, rr.Code), rr.Code != 404)
 					res.bump(fmt.Sprintf("route-%s:%dxx", c15ModeNames[m], rr.Code/100))
